@@ -1,11 +1,771 @@
-// Package c06 - correspondence harness for C06 (stub: not built yet).
+// Package c06 drives the real verifier.Verify on hand-assembled JWS envelopes whose signing
+// time, expiry and per-certificate validity windows are placed before / around / after the
+// harness's own clock reading, under both signing schemes, with policies that list or do not
+// list tsa stores x verifyTimestamp in {unset, always, afterCertExpiry}, and RFC 3161
+// countersignatures issued by a local in-process TSA (absent, garbage, over another signature,
+// from an unlisted or unknown TSA root, mis-purposed TSA certificate, broken CMS signature,
+// TSA certificate invalid at the timestamp, TSA chain breaking the certificate rules, revoked /
+// unknown / validator error, and time ranges inside / on / just outside the certificate windows).
+//
+// The code calls time.Now() directly, so `now` cannot be injected: every instant that is compared
+// with the clock keeps a margin of at least 60 s from the harness's clock reading, which is what
+// the model receives as `now`.  Instants that are compared with each other (signing time or
+// timestamp range against NotBefore / NotAfter) are placed exactly on and one nanosecond /
+// microsecond / second off the boundaries.
 package c06
 
 import (
+	"bytes"
+	"context"
+	"crypto/ecdsa"
+	"crypto/x509"
 	"errors"
+	"fmt"
+	"math/rand"
+	"time"
 
+	revresult "github.com/notaryproject/notation-core-go/revocation/result"
+	"github.com/notaryproject/notation-core-go/signature"
+	_ "github.com/notaryproject/notation-core-go/signature/jws"
+	nx509 "github.com/notaryproject/notation-core-go/x509"
+	"github.com/notaryproject/notation-go"
+	"github.com/notaryproject/notation-go/verifier"
+	"github.com/notaryproject/notation-go/verifier/trustpolicy"
 	"github.com/notaryproject/notation-go/xverif/common"
+	"github.com/notaryproject/tspclient-go"
+	"github.com/opencontainers/go-digest"
+	ocispec "github.com/opencontainers/image-spec/specs-go/v1"
 )
 
+type Window struct {
+	NotBefore int64 `json:"notBefore"`
+	NotAfter  int64 `json:"notAfter"`
+}
+
+type Token struct {
+	Parses         bool  `json:"parses"`
+	ImprintMatches bool  `json:"imprintMatches"`
+	GenTime        int64 `json:"genTime"`
+	AccSeconds     int   `json:"accSeconds"`
+	AccMillis      int   `json:"accMillis"`
+	AccMicros      int   `json:"accMicros"`
+	BaselinePolicy bool  `json:"baselinePolicy"`
+	TsaRootListed  bool  `json:"tsaRootListed"`
+	TsaCertOk      bool  `json:"tsaCertOk"`
+	ChainRulesOk   bool  `json:"chainRulesOk"`
+}
+
+type Input struct {
+	Now                int64    `json:"now"`
+	Scheme             string   `json:"scheme"`
+	SigningTime        int64    `json:"signingTime"`
+	Expiry             *int64   `json:"expiry"`
+	Chain              []Window `json:"chain"`
+	TsaListed          bool     `json:"tsaListed"`
+	Option             string   `json:"option"`
+	Token              *Token   `json:"token"`
+	TsaStoresLoad      bool     `json:"tsaStoresLoad"`
+	TsaStoresNonEmpty  bool     `json:"tsaStoresNonEmpty"`
+	TsaRevocationError bool     `json:"tsaRevocationError"`
+	TsaRevocation      []string `json:"tsaRevocation"`
+}
+
+type Obs struct {
+	ExpiryFailed bool `json:"expiryFailed"`
+	AuthTsFailed bool `json:"authTsFailed"`
+}
+
+var target = ocispec.Descriptor{MediaType: "application/vnd.oci.image.manifest.v1+json", Digest: digest.FromString("c06 artifact"), Size: 12}
+
+const (
+	minMargin = 60        // seconds between the clock and anything compared with it
+	day       = 24 * 3600 // seconds
+)
+
+// the TSAs of the world; all share a validity of base -/+ 10 years except `short`
+type world struct {
+	base      time.Time
+	tsaA      *TSA // root in tsa:c06tsa
+	tsaB      *TSA // root in tsa:other
+	tsaC      *TSA // root in no store
+	nonCrit   *TSA // root A, timestamping EKU not critical
+	codeSign  *TSA // root A, code signing EKU (critical)
+	twoEKU    *TSA // root A, timestamping + code signing EKU (critical)
+	badKU     *TSA // root A, key usage DigitalSignature|KeyEncipherment: breaks ValidateTimestampingCertChain only
+	short     *TSA // root A, signing certificate valid for one day, 400 days ago
+	caStoreTS *TSA // root held by the *ca* store of the signing chain's type only (not a tsa store)
+	expired   *TSA // root A, signing certificate expired 50 days ago (valid at earlier timestamps only)
+}
+
+func newWorld() *world {
+	base := time.Now().Truncate(time.Second)
+	nb, na := base.Add(-3650*day*time.Second), base.Add(3650*day*time.Second)
+	w := &world{base: base}
+	w.tsaA = NewTSA(TSAOpts{Tag: "A", NotBefore: nb, NotAfter: na})
+	w.tsaB = NewTSA(TSAOpts{Tag: "B", NotBefore: nb, NotAfter: na})
+	w.tsaC = NewTSA(TSAOpts{Tag: "C", NotBefore: nb, NotAfter: na})
+	w.caStoreTS = NewTSA(TSAOpts{Tag: "D", NotBefore: nb, NotAfter: na})
+	w.nonCrit = NewTSA(TSAOpts{Tag: "A-noncritical", NotBefore: nb, NotAfter: na, Root: w.tsaA.Root, NonCritical: true})
+	w.codeSign = NewTSA(TSAOpts{Tag: "A-codesigning", NotBefore: nb, NotAfter: na, Root: w.tsaA.Root, LeafEKU: []x509.ExtKeyUsage{x509.ExtKeyUsageCodeSigning}})
+	w.twoEKU = NewTSA(TSAOpts{Tag: "A-twoeku", NotBefore: nb, NotAfter: na, Root: w.tsaA.Root, LeafEKU: []x509.ExtKeyUsage{x509.ExtKeyUsageTimeStamping, x509.ExtKeyUsageCodeSigning}})
+	w.badKU = NewTSA(TSAOpts{Tag: "A-keyusage", NotBefore: nb, NotAfter: na, Root: w.tsaA.Root, LeafKeyUsage: x509.KeyUsageDigitalSignature | x509.KeyUsageKeyEncipherment})
+	w.short = NewTSA(TSAOpts{Tag: "A-short", NotBefore: base.Add(-400 * day * time.Second), NotAfter: base.Add(-399 * day * time.Second), Root: w.tsaA.Root})
+	w.expired = NewTSA(TSAOpts{Tag: "A-expired", NotBefore: nb, NotAfter: base.Add(-50 * day * time.Second), Root: w.tsaA.Root})
+	return w
+}
+
+// mintChain mints a code-signing chain with one validity window per certificate (leaf first).
+func mintChain(tag string, nb, na []time.Time) *common.Chain {
+	n := len(nb)
+	cs := []x509.ExtKeyUsage{x509.ExtKeyUsageCodeSigning}
+	if n == 1 {
+		return &common.Chain{Certs: []*common.Cert{common.MakeCert(common.CertOpts{Subject: common.Name("leaf " + tag), EKU: cs, NotBefore: nb[0], NotAfter: na[0]})}}
+	}
+	certs := make([]*common.Cert, n)
+	certs[n-1] = common.MakeCert(common.CertOpts{Subject: common.Name("root " + tag), CA: true, PathLen: n - 2, NotBefore: nb[n-1], NotAfter: na[n-1]})
+	for k := n - 2; k >= 1; k-- {
+		certs[k] = common.MakeCert(common.CertOpts{Subject: common.Name(fmt.Sprintf("intermediate%d %s", k, tag)), CA: true, PathLen: k - 1,
+			Parent: certs[k+1], NotBefore: nb[k], NotAfter: na[k]})
+	}
+	certs[0] = common.MakeCert(common.CertOpts{Subject: common.Name("leaf " + tag), EKU: cs, Parent: certs[1], NotBefore: nb[0], NotAfter: na[0]})
+	return &common.Chain{Certs: certs}
+}
+
+// abstract description of one case, in seconds relative to the case's clock reading
+type plan struct {
+	scheme    string   // "x509" | "signingAuthority"
+	nb, na    []int64  // per certificate, leaf first, seconds relative to now
+	signSec   int64    // signing time, seconds relative to now
+	signNanos int64    // plus nanoseconds
+	expiry    *int64   // seconds relative to now
+	stores    []string // tsa stores listed by the policy (names)
+	option    string
+	token     string // "none", "garbage", or the name of the issuing TSA variant
+	wrongMsg  bool
+	badSig    bool
+	genSec    int64 // genTime, seconds relative to now
+	accS      int
+	accMs     int
+	accUs     int
+	baseline  bool
+	rev       []string
+	revErr    bool
+	tokenKind string // for the histogram
+	rangeKind string
+	faults    int   // number of faults injected into the countersignature
+	origin    int64 // what the clock reading is called in the model's input (nanoseconds)
+	focus     string
+}
+
+// applies: timestamp verification applies to this plan (used only to steer the generator)
+func (p *plan) applies() bool {
+	if len(p.stores) == 0 {
+		return false
+	}
+	if p.option != "afterCertExpiry" {
+		return true
+	}
+	for _, a := range p.na {
+		if a < 0 {
+			return true
+		}
+	}
+	return false
+}
+
+// rangeInside: the token's time range lies inside every window (used only to steer the generator)
+func (p *plan) rangeInside() bool {
+	acc := int64(p.accS)*1000000 + int64(p.accMs)*1000 + int64(p.accUs)
+	if acc == 0 && p.baseline {
+		acc = 1000000
+	}
+	lo, hi := intersection(p.nb, p.na)
+	return lo*1000000 <= p.genSec*1000000-acc && p.genSec*1000000+acc <= hi*1000000
+}
+
+// cleanBackground: a notary.x509 signature under a policy whose tsa stores hold the issuing TSA's
+// root, timestamp verification applies and the time range is fine - so that the injected fault
+// (or its absence) alone decides the verdict
+func (p *plan) cleanBackground() bool {
+	good := false
+	for _, l := range goodListings {
+		good = good || fmt.Sprint(l) == fmt.Sprint(p.stores)
+	}
+	return p.scheme == "x509" && good && p.applies() && p.rangeInside()
+}
+
+// genPlan steers the raw generator: 35% single countersignature fault on a clean background,
+// 15% good countersignature on a clean background, 50% unconstrained.
+func genPlan(r *rand.Rand) plan {
+	want := -1
+	focus := "free"
+	switch x := r.Intn(100); {
+	case x < 35:
+		want, focus = 1, "singleFault"
+	case x < 50:
+		want, focus = 0, "cleanGood"
+	}
+	for {
+		p := genPlanRaw(r)
+		if want < 0 || (p.faults == want && p.cleanBackground()) {
+			p.focus = focus
+			return p
+		}
+	}
+}
+
+func rng(r *rand.Rand, lo, hi int64) int64 { return lo + r.Int63n(hi-lo+1) }
+
+func pick[T any](r *rand.Rand, xs ...T) T { return xs[r.Intn(len(xs))] }
+
+// windows relative to now, every boundary at least minMargin away from it
+func genWindows(r *rand.Rand) (nb, na []int64, mode string) {
+	n := 1 + r.Intn(4)
+	nb, na = make([]int64, n), make([]int64, n)
+	around := func(k int) { nb[k], na[k] = -rng(r, minMargin, 10*day), rng(r, minMargin, 10*day) }
+	past := func(k int) { nb[k], na[k] = -rng(r, 5*day, 10*day), -rng(r, minMargin, 2*day) }
+	future := func(k int) { nb[k], na[k] = rng(r, minMargin, 2*day), rng(r, 5*day, 10*day) }
+	for k := 0; k < n; k++ {
+		around(k)
+	}
+	mode = pick(r, "valid", "valid", "valid", "oneExpired", "oneExpired", "oneFuture", "random", "tight", "farPast")
+	switch mode {
+	case "oneExpired":
+		past(r.Intn(n))
+	case "oneFuture":
+		future(r.Intn(n))
+	case "random":
+		for k := 0; k < n; k++ {
+			switch r.Intn(4) {
+			case 0:
+				past(k)
+			case 1:
+				future(k)
+			}
+		}
+	case "tight":
+		// barely valid / barely invalid with respect to the clock
+		for k := 0; k < n; k++ {
+			nb[k], na[k] = -rng(r, minMargin, minMargin+5), rng(r, minMargin, minMargin+5)
+		}
+		switch r.Intn(3) {
+		case 0:
+			k := r.Intn(n)
+			nb[k], na[k] = -10*day, -minMargin
+		case 1:
+			k := r.Intn(n)
+			nb[k], na[k] = minMargin, 10*day
+		}
+	case "farPast":
+		// the whole chain expired long ago but shares a common interval
+		for k := 0; k < n; k++ {
+			nb[k], na[k] = -rng(r, 300*day, 400*day), -rng(r, 100*day, 200*day)
+		}
+	}
+	return
+}
+
+func intersection(nb, na []int64) (lo, hi int64) {
+	lo, hi = nb[0], na[0]
+	for k := range nb {
+		if nb[k] > lo {
+			lo = nb[k]
+		}
+		if na[k] < hi {
+			hi = na[k]
+		}
+	}
+	return
+}
+
+// tsa store listings of the policy: 20% none, 55% usable (the token-issuing TSA's store is among
+// them), 25% unusable (another TSA's store only, an empty store, a store that fails to load)
+var (
+	goodListings = [][]string{{"c06tsa"}, {"c06tsa"}, {"c06tsa"}, {"c06tsa"}, {"c06tsa", "other"}, {"other", "c06tsa"}, {"empty", "c06tsa"}, {"c06tsa", "c06tsa"}}
+	badListings  = [][]string{{"other"}, {"empty"}, {"broken"}, {"c06tsa", "broken"}, {"broken", "c06tsa"}, {"empty", "other"}}
+)
+
+func genListing(r *rand.Rand) []string {
+	switch x := r.Intn(100); {
+	case x < 20:
+		return []string{}
+	case x < 75:
+		return goodListings[r.Intn(len(goodListings))]
+	default:
+		return badListings[r.Intn(len(badListings))]
+	}
+}
+
+func genPlanRaw(r *rand.Rand) plan {
+	var p plan
+	p.scheme = pick(r, "x509", "x509", "x509", "signingAuthority")
+	switch r.Intn(4) {
+	case 0:
+		p.origin = 0
+	case 1:
+		p.origin = -r.Int63n(4e18) // before the epoch
+	default:
+		p.origin = 1600000000e9 + r.Int63n(400000000)*1e9 // a Unix time in 2020..2033, whole seconds
+	}
+	var mode string
+	p.nb, p.na, mode = genWindows(r)
+	lo, hi := intersection(p.nb, p.na)
+	p.stores = genListing(r)
+	p.option = pick(r, "unset", "always", "afterCertExpiry", "afterCertExpiry")
+
+	// signing time: relative to the common interval of the windows, boundaries included
+	switch r.Intn(12) {
+	case 0:
+		p.signSec = lo
+	case 1:
+		p.signSec = hi
+	case 2:
+		p.signSec = lo - 1
+	case 3:
+		p.signSec = hi + 1
+	case 4:
+		p.signSec, p.signNanos = lo-1, 999999999 // one nanosecond before NotBefore
+	case 5:
+		p.signSec, p.signNanos = hi, 1 // one nanosecond after NotAfter
+	case 6:
+		p.signSec = lo - rng(r, 2, 30*day)
+	case 7:
+		p.signSec = hi + rng(r, 2, 30*day)
+	case 8:
+		k := r.Intn(len(p.nb)) // a boundary of one particular certificate
+		p.signSec = pick(r, p.nb[k], p.na[k], p.nb[k]-1, p.na[k]+1)
+	default:
+		if hi >= lo {
+			p.signSec = rng(r, lo, hi)
+		} else {
+			p.signSec = rng(r, hi, lo)
+		}
+	}
+
+	// expiry: absent, or at least minMargin before / after the clock, and after the signing time
+	switch r.Intn(5) {
+	case 0, 1:
+		e := -rng(r, minMargin, minMargin+pick[int64](r, 5, 3600, 30*day))
+		if e > p.signSec+1 {
+			p.expiry = &e
+		}
+	case 2, 3:
+		e := rng(r, minMargin, minMargin+pick[int64](r, 5, 3600, 30*day))
+		if e > p.signSec+1 {
+			p.expiry = &e
+		}
+	}
+
+	// countersignature
+	p.rev = []string{"ok", "ok"}
+	p.token = "A"
+	p.tokenKind = "good"
+	fault := func(k int) {
+		p.faults++
+		switch k {
+		case 0:
+			p.token, p.tokenKind = "none", "absent"
+		case 1:
+			p.token, p.tokenKind = "garbage", "garbage"
+		case 2:
+			p.wrongMsg, p.tokenKind = true, "otherMessage"
+		case 3:
+			p.token, p.tokenKind = "B", "rootInOtherStore"
+		case 4:
+			p.token, p.tokenKind = "C", "rootInNoStore"
+		case 5:
+			p.token, p.tokenKind = "nonCrit", "ekuNotCritical"
+		case 6:
+			p.token, p.tokenKind = "codeSign", "ekuCodeSigning"
+		case 7:
+			p.token, p.tokenKind = "twoEKU", "ekuTwo"
+		case 8:
+			p.badSig, p.tokenKind = true, "badCmsSignature"
+		case 9:
+			p.token, p.tokenKind = "short", "tsaCertInvalidAtGenTime"
+		case 10:
+			p.token, p.tokenKind = "badKU", "chainRulesBroken"
+		case 11:
+			p.rev, p.tokenKind = pick(r, []string{"revoked", "ok"}, []string{"ok", "revoked"}, []string{"revoked", "unknown"}), "revoked"
+		case 12:
+			p.rev, p.tokenKind = pick(r, []string{"unknown", "ok"}, []string{"ok", "unknown"}, []string{"nonRevokable", "unknown"}), "revocationUnknown"
+		case 13:
+			p.revErr, p.tokenKind = true, "revocationError"
+		case 14:
+			p.token, p.tokenKind = "caStore", "rootOnlyInCaStore"
+		case 15:
+			// not a fault when the timestamp predates the TSA certificate's expiry
+			p.token, p.tokenKind = "expired", "tsaCertExpiredNow"
+		}
+	}
+	switch x := r.Intn(100); {
+	case x < 40:
+		if mode == "farPast" && r.Intn(2) == 0 {
+			p.token, p.tokenKind = "expired", "tsaCertExpiredNow" // valid at the old timestamp
+		}
+		if r.Intn(4) == 0 {
+			p.rev = pick(r, []string{"nonRevokable", "ok"}, []string{"ok", "nonRevokable"}, []string{"nonRevokable", "nonRevokable"})
+		}
+	case x < 88:
+		fault(r.Intn(16))
+	default:
+		fault(r.Intn(16))
+		k := p.tokenKind
+		fault(r.Intn(16))
+		_ = k
+		p.tokenKind = "twoFaults"
+	}
+
+	// time range of the token relative to the common interval [lo, hi] of the windows
+	p.accS = int(pick[int64](r, 0, 0, 1, 1, 2, 30, 3600))
+	acc := int64(p.accS)
+	rk := r.Intn(12) // in range or exactly on a boundary
+	if r.Intn(100) < 40 {
+		rk = 12 + r.Intn(8) // outside
+	}
+	if hi-lo < 2*acc {
+		// no room for an in-range stamp with this accuracy
+		if hi >= lo && rk < 12 {
+			p.accS, acc = 0, 0
+		} else if rk < 12 {
+			rk = 12 + r.Intn(8)
+		}
+	}
+	switch {
+	case rk < 6:
+		p.genSec, p.rangeKind = rng(r, lo+acc, hi-acc), "inside"
+	case rk < 8:
+		p.genSec, p.rangeKind = lo+acc, "lowerOnNotBefore"
+	case rk < 10:
+		p.genSec, p.rangeKind = hi-acc, "upperOnNotAfter"
+	case rk == 10:
+		// exactly filling the interval when possible
+		if (hi-lo)%2 == 0 && hi-lo <= 7200 {
+			p.accS = int((hi - lo) / 2)
+			p.genSec, p.rangeKind = lo+int64(p.accS), "fillsInterval"
+		} else {
+			p.genSec, p.rangeKind = lo+acc, "lowerOnNotBefore"
+		}
+	case rk == 11:
+		// a boundary of one particular certificate that is also the common one
+		p.genSec, p.rangeKind = pick(r, lo+acc, hi-acc), "onBoundary"
+	case rk == 12:
+		p.genSec, p.accUs, p.rangeKind = lo+acc, 1, "lowerOneMicroBeforeNotBefore"
+	case rk == 13:
+		p.genSec, p.accUs, p.rangeKind = hi-acc, 1, "upperOneMicroAfterNotAfter"
+	case rk == 14:
+		p.genSec, p.accMs, p.rangeKind = pick(r, lo+acc, hi-acc), 1+r.Intn(999), "millisOutside"
+	case rk == 15:
+		p.genSec, p.rangeKind = lo+acc-1, "lowerOneSecondBeforeNotBefore"
+	case rk == 16:
+		p.genSec, p.rangeKind = hi-acc+1, "upperOneSecondAfterNotAfter"
+	case rk == 17:
+		p.genSec, p.rangeKind = lo-rng(r, 1, 30*day), "before"
+	case rk == 18:
+		p.genSec, p.rangeKind = hi+rng(r, 1, 30*day), "after"
+	default:
+		p.genSec, p.rangeKind = (lo+hi)/2, "hugeAccuracy"
+		p.accS = int(hi-lo) + 1
+		if p.accS < 0 {
+			p.accS = 5
+		}
+	}
+	// the baseline policy turns an empty accuracy into one second
+	if p.accS == 0 && p.accMs == 0 && p.accUs == 0 && r.Intn(2) == 0 {
+		p.baseline = true
+		p.rangeKind += "+baselineEmptyAccuracy"
+	} else if r.Intn(8) == 0 {
+		p.baseline = true
+	}
+	if p.token == "none" || p.token == "garbage" {
+		p.rangeKind = "n/a"
+	}
+	return p
+}
+
+type caseResult struct {
+	in  Input
+	obs Obs
+}
+
+var resMap = map[string]revresult.Result{"ok": revresult.ResultOK, "nonRevokable": revresult.ResultNonRevokable,
+	"unknown": revresult.ResultUnknown, "revoked": revresult.ResultRevoked}
+
+func contains(xs []string, s string) bool {
+	for _, x := range xs {
+		if x == s {
+			return true
+		}
+	}
+	return false
+}
+
+func runCase(w *world, p plan, id int) caseResult {
+	now0 := time.Now()
+	nowSec := now0.Truncate(time.Second)
+	at := func(sec int64) time.Time { return nowSec.Add(time.Duration(sec) * time.Second) }
+	// Instants are handed to the model in nanoseconds relative to an origin: `p.origin` stands for
+	// the clock reading (the model is invariant under translation of all instants - theorem
+	// `run_shift` - and a clock-independent encoding makes a case replayable from its seed).
+	rel := func(t time.Time) int64 { return p.origin + t.Sub(nowSec).Nanoseconds() }
+
+	n := len(p.nb)
+	nbT, naT := make([]time.Time, n), make([]time.Time, n)
+	for k := 0; k < n; k++ {
+		nbT[k], naT[k] = at(p.nb[k]), at(p.na[k])
+	}
+	chain := mintChain(fmt.Sprintf("c06-%d", id), nbT, naT)
+
+	scheme, storeType := schemeX509, "ca"
+	if p.scheme == "signingAuthority" {
+		scheme, storeType = schemeSigningAuthority, "signingAuthority"
+	}
+	signingTime := at(p.signSec).Add(time.Duration(p.signNanos))
+	var expiry time.Time
+	if p.expiry != nil {
+		expiry = at(*p.expiry)
+	}
+	build := func() *RawJWS {
+		env, err := BuildRawJWS(RawJWSOpts{Certs: chain.X509(), LeafKey: chain.Leaf().Key.(*ecdsa.PrivateKey),
+			Payload: common.PayloadFor(target), ContentType: common.PayloadTypeV1, Scheme: scheme,
+			SigningTime: signingTime, Expiry: expiry})
+		if err != nil {
+			panic(err)
+		}
+		return env
+	}
+	env := build()
+
+	// trust stores
+	store := common.NewMemStore()
+	store.Certs[storeType+":c06"] = []*x509.Certificate{chain.Root().Cert, w.caStoreTS.Root.Cert}
+	store.Certs["tsa:c06tsa"] = []*x509.Certificate{w.tsaA.Root.Cert}
+	store.Certs["tsa:other"] = []*x509.Certificate{w.tsaB.Root.Cert}
+	store.Empty["tsa:empty"] = true
+	store.Errs["tsa:broken"] = errors.New("scripted load failure")
+	trustStores := []string{storeType + ":c06"}
+	for _, s := range p.stores {
+		trustStores = append(trustStores, "tsa:"+s)
+	}
+	if len(p.stores) > 0 && id%3 == 0 {
+		// the position of the tsa entries must not matter
+		trustStores = append(trustStores[1:], trustStores[0])
+	}
+
+	in := Input{Scheme: p.scheme, SigningTime: rel(signingTime), Option: p.option,
+		TsaListed: len(p.stores) > 0, TsaStoresLoad: !contains(p.stores, "broken"),
+		TsaStoresNonEmpty:  contains(p.stores, "c06tsa") || contains(p.stores, "other"),
+		TsaRevocationError: p.revErr, TsaRevocation: p.rev}
+	for k, c := range chain.Certs {
+		in.Chain = append(in.Chain, Window{rel(c.Cert.NotBefore), rel(c.Cert.NotAfter)})
+		if !c.Cert.NotBefore.Equal(nbT[k]) || !c.Cert.NotAfter.Equal(naT[k]) {
+			panic("c06: certificate window differs from the plan")
+		}
+	}
+	if p.expiry != nil {
+		e := rel(expiry)
+		in.Expiry = &e
+	}
+
+	// countersignature
+	var token []byte
+	switch p.token {
+	case "none":
+	case "garbage":
+		token = []byte("this is not a CMS structure")
+		in.Token = &Token{}
+	default:
+		tsa := map[string]*TSA{"A": w.tsaA, "B": w.tsaB, "C": w.tsaC, "nonCrit": w.nonCrit, "codeSign": w.codeSign,
+			"twoEKU": w.twoEKU, "badKU": w.badKU, "short": w.short, "caStore": w.caStoreTS, "expired": w.expired}[p.token]
+		msg := env.SignatureValue()
+		if p.wrongMsg {
+			msg = build().SignatureValue() // a token issued for another signature over the same content
+		}
+		gen := at(p.genSec)
+		token = tsa.Token(TokenOpts{Message: msg, GenTime: gen, AccSeconds: p.accS, AccMillis: p.accMs, AccMicros: p.accUs,
+			Baseline: p.baseline, BadSignature: p.badSig})
+		rootStore := map[string]string{"A": "c06tsa", "B": "other", "nonCrit": "c06tsa", "codeSign": "c06tsa", "twoEKU": "c06tsa",
+			"badKU": "c06tsa", "short": "c06tsa", "expired": "c06tsa"}[p.token] // C and caStore: no tsa store
+		validAt := func(c *x509.Certificate) bool { return !gen.Before(c.NotBefore) && !gen.After(c.NotAfter) }
+		purposeOK := p.token != "nonCrit" && p.token != "codeSign" && p.token != "twoEKU"
+		in.Token = &Token{Parses: true, ImprintMatches: !p.wrongMsg, GenTime: rel(gen),
+			AccSeconds: p.accS, AccMillis: p.accMs, AccMicros: p.accUs, BaselinePolicy: p.baseline,
+			TsaRootListed: rootStore != "" && contains(p.stores, rootStore) && in.TsaStoresLoad,
+			TsaCertOk:     purposeOK && !p.badSig && validAt(tsa.Leaf.Cert) && validAt(tsa.Root.Cert),
+			ChainRulesOk:  p.token != "badKU"}
+	}
+	sigBlob := env.WithTimestamp(token)
+
+	rev := &common.ScriptedRevocation{}
+	rev.Results = func(c []*x509.Certificate) ([]*revresult.CertRevocationResult, error) {
+		if p.revErr {
+			return nil, errors.New("scripted validator failure")
+		}
+		if len(c) != len(p.rev) {
+			panic(fmt.Sprintf("c06: TSA chain of length %d handed to the validator", len(c)))
+		}
+		out := make([]*revresult.CertRevocationResult, len(p.rev))
+		for k, x := range p.rev {
+			out[k] = &revresult.CertRevocationResult{Result: resMap[x], ServerResults: []*revresult.ServerResult{{Result: resMap[x]}}}
+		}
+		return out, nil
+	}
+
+	sv := trustpolicy.SignatureVerification{VerificationLevel: "strict",
+		Override: map[trustpolicy.ValidationType]trustpolicy.ValidationAction{
+			trustpolicy.TypeExpiry:             trustpolicy.ActionLog,
+			trustpolicy.TypeAuthenticTimestamp: trustpolicy.ActionLog,
+			trustpolicy.TypeRevocation:         trustpolicy.ActionSkip,
+		}}
+	if p.option != "unset" {
+		sv.VerifyTimestamp = trustpolicy.TimestampOption(p.option)
+	}
+	doc := &trustpolicy.OCIDocument{Version: "1.0", TrustPolicies: []trustpolicy.OCITrustPolicy{{
+		Name: "c06", RegistryScopes: []string{"*"}, SignatureVerification: sv,
+		TrustStores: trustStores, TrustedIdentities: []string{"*"},
+	}}}
+	v, err := verifier.NewVerifierWithOptions(store, verifier.VerifierOptions{OCITrustPolicy: doc, RevocationTimestampingValidator: rev})
+	if err != nil {
+		panic(err)
+	}
+
+	// The model's `now` is the clock reading at the start of the case, truncated to the second;
+	// the code reads its own clock some milliseconds later (bounded by the 20 s guard below), and
+	// everything it compares with that reading is at least 60 s away from `now`.
+	in.Now = rel(nowSec)
+	outcome, verr := v.Verify(context.Background(), target, sigBlob, notation.VerifierVerifyOptions{
+		ArtifactReference: "reg.example/c06@" + target.Digest.String(), SignatureMediaType: common.MediaJWS})
+	if d := time.Since(now0); d > 20*time.Second {
+		panic(fmt.Sprintf("c06: a case took %v, the clock margins are no longer safe", d))
+	}
+	if outcome == nil {
+		panic(fmt.Sprintf("c06: nil outcome: %v", verr))
+	}
+	var o Obs
+	seenE, seenT := false, false
+	for _, r := range outcome.VerificationResults {
+		switch r.Type {
+		case trustpolicy.TypeExpiry:
+			o.ExpiryFailed, seenE = r.Error != nil, true
+		case trustpolicy.TypeAuthenticTimestamp:
+			o.AuthTsFailed, seenT = r.Error != nil, true
+		default:
+			if r.Error != nil {
+				panic(fmt.Sprintf("c06: unexpected %s failure: %v", r.Type, r.Error))
+			}
+		}
+	}
+	if !seenE || !seenT {
+		panic(fmt.Sprintf("c06: expiry / authenticTimestamp result missing: %v", verr))
+	}
+	if verr != nil {
+		panic(fmt.Sprintf("c06: verification error although both validations only log: %v", verr))
+	}
+	return caseResult{in, o}
+}
+
+// selfCheck validates the hand-written assemblers against the libraries directly: the JWS
+// envelope must verify with notation-core-go and carry the attributes it was given, and the
+// token must parse, match the signature value and verify with tspclient-go.
+func selfCheck(w *world) error {
+	now := time.Now().Truncate(time.Second)
+	chain := mintChain("selfcheck", []time.Time{now.Add(-time.Hour), now.Add(-2 * time.Hour)}, []time.Time{now.Add(time.Hour), now.Add(2 * time.Hour)})
+	for _, scheme := range []string{schemeX509, schemeSigningAuthority} {
+		st, exp := now.Add(-90*time.Minute).Add(7), now.Add(30*time.Minute) // signing time before the leaf's NotBefore
+		env, err := BuildRawJWS(RawJWSOpts{Certs: chain.X509(), LeafKey: chain.Leaf().Key.(*ecdsa.PrivateKey),
+			Payload: common.PayloadFor(target), ContentType: common.PayloadTypeV1, Scheme: scheme, SigningTime: st, Expiry: exp})
+		if err != nil {
+			return err
+		}
+		gen := now.Add(-10 * time.Minute)
+		token := w.tsaA.Token(TokenOpts{Message: env.SignatureValue(), GenTime: gen, AccSeconds: 2, AccMillis: 3, AccMicros: 4})
+		parsed, err := signature.ParseEnvelope(common.MediaJWS, env.WithTimestamp(token))
+		if err != nil {
+			return fmt.Errorf("selfcheck: ParseEnvelope: %w", err)
+		}
+		content, err := parsed.Verify()
+		if err != nil {
+			return fmt.Errorf("selfcheck: envelope.Verify: %w", err)
+		}
+		si := content.SignerInfo
+		if string(si.SignedAttributes.SigningScheme) != scheme || !si.SignedAttributes.SigningTime.Equal(st) ||
+			!si.SignedAttributes.Expiry.Equal(exp) || len(si.CertificateChain) != 2 || !bytes.Equal(si.Signature, env.SignatureValue()) ||
+			!bytes.Equal(si.UnsignedAttributes.TimestampSignature, token) {
+			return errors.New("selfcheck: the parsed envelope does not carry what was assembled")
+		}
+		tok, err := tspclient.ParseSignedToken(token)
+		if err != nil {
+			return fmt.Errorf("selfcheck: ParseSignedToken: %w", err)
+		}
+		info, err := tok.Info()
+		if err != nil {
+			return err
+		}
+		ts, err := info.Validate(si.Signature)
+		if err != nil {
+			return fmt.Errorf("selfcheck: TSTInfo.Validate: %w", err)
+		}
+		if !ts.Value.Equal(gen) || ts.Accuracy != 2*time.Second+3*time.Millisecond+4*time.Microsecond {
+			return fmt.Errorf("selfcheck: timestamp %v +/- %v", ts.Value, ts.Accuracy)
+		}
+		if _, err := info.Validate([]byte("another message")); err == nil {
+			return errors.New("selfcheck: the token validates against another message")
+		}
+		roots := x509.NewCertPool()
+		roots.AddCert(w.tsaA.Root.Cert)
+		tsaChain, err := tok.Verify(context.Background(), x509.VerifyOptions{CurrentTime: ts.Value, Roots: roots})
+		if err != nil {
+			return fmt.Errorf("selfcheck: SignedToken.Verify: %w", err)
+		}
+		if len(tsaChain) != 2 {
+			return errors.New("selfcheck: TSA chain length")
+		}
+		if err := nx509.ValidateTimestampingCertChain(tsaChain); err != nil {
+			return fmt.Errorf("selfcheck: ValidateTimestampingCertChain: %w", err)
+		}
+		// the chain-rules variant passes token verification and fails only the certificate rules
+		tok2, _ := tspclient.ParseSignedToken(w.badKU.Token(TokenOpts{Message: env.SignatureValue(), GenTime: gen}))
+		c2, err := tok2.Verify(context.Background(), x509.VerifyOptions{CurrentTime: gen, Roots: roots})
+		if err != nil || nx509.ValidateTimestampingCertChain(c2) == nil {
+			return fmt.Errorf("selfcheck: key-usage variant: verify err=%v", err)
+		}
+	}
+	return nil
+}
+
 // Run generates the cases of C06.
-func Run(c *common.Ctx) error { return errors.New("C06: harness not built yet") }
+func Run(c *common.Ctx) error {
+	w := newWorld()
+	if err := selfCheck(w); err != nil {
+		return err
+	}
+	total := 2500
+	if c.Thorough() {
+		total = 24000
+	}
+	for id := 0; id < total; id++ {
+		p := genPlan(c.Rand)
+		res := runCase(w, p, id)
+		c.Emit(res.in, res.obs)
+		c.Count("scheme=" + p.scheme)
+		c.Count("option=" + p.option)
+		c.Count("focus=" + p.focus)
+		c.Count(fmt.Sprintf("chainLen=%d", len(p.nb)))
+		c.Count(fmt.Sprintf("tsaStores=%v", p.stores))
+		c.Count(fmt.Sprintf("expiryFailed=%v", res.obs.ExpiryFailed))
+		c.Count(fmt.Sprintf("scheme=%s authTsFailed=%v", p.scheme, res.obs.AuthTsFailed))
+		if p.expiry == nil {
+			c.Count("expiry=absent")
+		} else if *p.expiry < 0 {
+			c.Count("expiry=past")
+		} else {
+			c.Count("expiry=future")
+		}
+		if p.scheme == "x509" && len(p.stores) > 0 {
+			c.Count("token=" + p.tokenKind)
+			c.Count("range=" + p.rangeKind)
+		}
+	}
+	c.Note("random product of: scheme x chain length 1..4 with independent per-certificate windows (valid / one expired / one not yet valid / mixed / barely valid at 60 s / expired long ago) x signing time on, one ns / one s off and far from the window boundaries x expiry absent / past / future x tsa store listings (none, listed, other, both, empty, failing, duplicate; any position) x verifyTimestamp unset/always/afterCertExpiry x countersignature (absent, garbage, good, 16 single faults, double faults) x time range (inside, on the boundaries, 1 us / 1 ms / 1 s outside, before, after, huge accuracy, baseline-policy default accuracy); hand-assembled ES256 JWS envelopes, local RFC 3161 TSA, real verifier.Verify with expiry/authenticTimestamp set to log. `now` is the harness's clock reading; everything compared with the clock is at least 60 s away from it")
+	return nil
+}
